@@ -18,7 +18,9 @@ from __future__ import annotations
 
 import contextlib
 import copy
+import inspect
 import io
+import json
 import os
 import tempfile
 from fractions import Fraction as F
@@ -68,6 +70,21 @@ def yload(text):
         return from_py(YAML(typ="safe").load(text)), None
     except Exception as e:
         return None, f"{type(e).__name__}: {str(e)[:200]}"
+
+
+def doc_tree(doc):
+    """the tree of a document a producer handed to the reader: parsed by ruamel when it is a text"""
+    if isinstance(doc, str):
+        return yload(doc)
+    try:
+        return from_py(doc), None
+    except Exception as e:
+        return None, f"{type(e).__name__}: {str(e)[:200]}"
+
+
+def doc_text(doc):
+    """for the byte-for-byte comparison of two documents"""
+    return doc if isinstance(doc, str) else repr(doc)
 
 
 def reset_eps(eps=None):
@@ -822,7 +839,11 @@ def compare_designs(src, dst, replaced=None, positions_only=False):
     for m, r in zip(a_mods, b_mods):
         nm = m["name"]
         if m["kind"][0]:
-            known.append(f"terminal: terminal {nm} reloaded as (terminal, hard, fixed) = {r['kind']}")
+            if m["kind"] != r["kind"]:
+                known.append(f"terminal: terminal {nm} {m['kind']} reloaded as (terminal, hard, fixed) = {r['kind']}")
+            elif (m["center"] is None) != (r["center"] is None) or (m["center"] is not None and not (
+                    close(m["center"][0], r["center"][0]) and close(m["center"][1], r["center"][1]))):
+                known.append(f"terminal: terminal {nm} at {m['center']} reloaded at {r['center']}")
             continue
         if m["kind"] != r["kind"]:
             if m["kind"] == (False, True, False) and r["kind"] == (False, True, True):
@@ -937,21 +958,29 @@ def run_solnet(case):
 
 
 def coq_builder(case, obs, model):
+    """model: Gallina expression of type option ytree over the loaded netlist n"""
     if not obs["given"] or not ascii_ok(case["doc"]):
-        return "true"
-    if special_names(obs["src"]):
         return "true"
     if obs.get("raised") or obs.get("built") is False:
         return f"with_netlist {gtree(case['doc'])} (fun n => match {model} with None => true | Some _ => false end)"
+    if special_names(obs["src"]) and obs["load"]["verdict"] != "ok":
+        return "true"       # an unquoted null / true / false: the tree is not a document; the oracle reports it
     if obs["tree1"] is None or not ascii_ok(obs["tree1"]):
         return "false"
     return (f"with_netlist {gtree(case['doc'])} (fun n => producer_ok 4 ({model}) {gotree(obs['tree1'])} "
             f"{gnl(obs['load'])})")
 
 
+def gresult(case):
+    return glist([f"({gstr(k)}, {glist([gbox(b) for b in bs])})" for k, bs in case["result"].items()])
+
+
 def coq_solnet(case, obs):
-    res = glist([f"({gstr(k)}, {glist([gbox(b) for b in bs])})" for k, bs in case["result"].items()])
-    return coq_builder(case, obs, f"solution_to_netlist n {res}")
+    return coq_builder(case, obs, f"Some (solution_to_netlist n {gresult(case)})")
+
+
+def coq_solnet_found(case, obs):
+    return coq_builder(case, obs, f"solution_to_netlist_found n {gresult(case)}")
 
 
 def oracle_solnet(case, obs):
@@ -974,7 +1003,7 @@ class Spy:
         spy = self
 
         def netlist(src):
-            spy.texts.append(src)
+            spy.texts.append(src if isinstance(src, str) else copy.deepcopy(src))
             return spy.orig(src)
         self.module.Netlist = netlist
         return self
@@ -1010,9 +1039,10 @@ def run_allocnet(case):
             texts = list(spy.texts)
         if len(texts) != 2:
             return {"built": True, "alloc": aobs, "texts": texts, "tree1": None, "load": {"verdict": "none"}}
-        tree1, err = yload(texts[0])
+        tree1, err = doc_tree(texts[0])
         _, v = load_netlist(texts[0])
-        return {"built": True, "alloc": aobs, "texts": texts, "tree1": tree1, "tree_err": err, "load": v}
+        return {"built": True, "alloc": aobs, "texts": [doc_text(t) for t in texts], "tree1": tree1, "tree_err": err,
+                "load": v}
     finally:
         reset_eps()
 
@@ -1070,7 +1100,8 @@ def run_legal(case):
         try:
             with contextlib.redirect_stdout(io.StringIO()):
                 ml, al, xl, yl, wl, hl, hyper, og = lf.netlist_to_utils(n)
-                m = lf.Model(ml, al, xl, yl, wl, hl, 4096.0, 4096.0, hyper, 3.0, og, 0.9, 0.3, 1.0)
+                extra = {"netlist": n} if "netlist" in inspect.signature(lf.Model.__init__).parameters else {}
+                m = lf.Model(ml, al, xl, yl, wl, hl, 4096.0, 4096.0, hyper, 3.0, og, 0.9, 0.3, 1.0, **extra)
         except (ZeroDivisionError, AssertionError) as e:
             return {"given": True, "src": src, "built": False, "msg": type(e).__name__}
         texts, v2 = [], {"verdict": "none"}
@@ -1086,10 +1117,10 @@ def run_legal(case):
         if len(texts) != 2:
             return {"given": True, "src": src, "built": True, "s1": None, "s2": None, "tree1": None, "load": v2,
                     "unchanged": after == src}
-        tree1, err = yload(texts[0])
+        tree1, err = doc_tree(texts[0])
         _, v2 = load_netlist(texts[0])
-        return {"given": True, "src": src, "built": True, "s1": texts[0], "s2": texts[1], "unchanged": after == src,
-                "tree1": tree1, "tree_err": err, "load": v2}
+        return {"given": True, "src": src, "built": True, "s1": doc_text(texts[0]), "s2": doc_text(texts[1]),
+                "unchanged": after == src, "tree1": tree1, "tree_err": err, "load": v2}
     finally:
         tempfile.tempdir = old
         reset_eps()
@@ -1097,6 +1128,10 @@ def run_legal(case):
 
 def coq_legal(case, obs):
     return coq_builder(case, obs, "legal_netlist n")
+
+
+def coq_legal_found(case, obs):
+    return coq_builder(case, obs, "legal_netlist_found n")
 
 
 def oracle_legal(case, obs):
@@ -1118,11 +1153,21 @@ ORACLE = {"die": oracle_die, "alloc": oracle_alloc, "netgen": oracle_netgen, "na
           "floorset": oracle_floorset, "solnet": oracle_solnet, "allocnet": oracle_allocnet, "legal": oracle_legal}
 
 
+# the models of the string builders as they were found (before fixes/C19-solution-to-netlist-writer.diff and
+# fixes/C19-legalfloor-get-netlist.diff)
+FOUND = {"solnet": coq_solnet_found, "legal": coq_legal_found}
+
+
 def run_impl(case):
     return RUN[case["prod"]](case)
 
 
+_SEEN = {}
+
+
 def to_coq(case, obs):
+    if case["prod"] in FOUND:
+        _SEEN[json.dumps(fr.tojson(case), sort_keys=True)] = obs
     return COQ[case["prod"]](case, obs)
 
 
@@ -1232,8 +1277,8 @@ def run(ctx, out, replay=None):
         cases.append(fr.unjson(replay["case"]))
     cases += fr.load_corpus("C19")
     cases += netgen_cases(quick, rng)
-    budget = {"die": 90, "alloc": 60, "named": 30, "floorset": 70, "solnet": 90, "allocnet": 40, "legal": 70} if quick else \
-             {"die": 900, "alloc": 500, "named": 200, "floorset": 800, "solnet": 1200, "allocnet": 400, "legal": 900}
+    budget = {"die": 90, "alloc": 60, "named": 30, "floorset": 70, "allocnet": 40, "solnet": 90, "legal": 70} if quick else \
+             {"die": 900, "alloc": 500, "named": 200, "floorset": 800, "allocnet": 400, "solnet": 1200, "legal": 900}
     gens = {"die": gen_die, "alloc": gen_alloc_case, "named": gen_named, "floorset": gen_floorset,
             "solnet": gen_solnet, "allocnet": gen_allocnet, "legal": gen_legal}
     for p, k in budget.items():
@@ -1246,3 +1291,27 @@ def run(ctx, out, replay=None):
         reset_eps()
     for f in out.failures:      # a shrunk input is filed under the failure it shows
         f["key"] = failure_key(fr.unjson(f["case"]), f.get("why"))
+    # The models mirror the REPAIRED string builders.  On a tree whose builders are still as found the
+    # correspondence disagrees on almost every document (other attribute order, attributes dropped).  Such a
+    # disagreement is filed under the open finding of the builder only when the document is exactly the one
+    # the model of the code as found predicts (a second evaluation, run only when there are disagreements).
+    todo = []
+    for d in out.disagreements:
+        case = fr.unjson(d["case"])
+        obs = _SEEN.get(json.dumps(d["case"], sort_keys=True))
+        if case.get("prod") in FOUND and obs is not None and not d.get("explained"):
+            todo.append((d, case, obs))
+    if todo:
+        res = core.coq_eval_bools(ctx, HEADER, [FOUND[c["prod"]](c, o) for _, c, o in todo], shard=60)
+        for (d, c, _), r in zip(todo, res):
+            if r is True:
+                d["key"] = f"C19/{PRODUCER[c['prod']]}/drops-attributes"
+                d["as_found"] = "the document is the one the model of the string builder as found predicts"
+    _SEEN.clear()
+    if os.environ.get("C19_DEBUG"):
+        seen = {}
+        for f in out.failures + out.disagreements:
+            seen.setdefault((f["key"], (f.get("why") or "")[:150]), 0)
+            seen[(f["key"], (f.get("why") or "")[:150])] += 1
+        for k, v in sorted(seen.items()):
+            print("debug:", v, k)
